@@ -31,6 +31,7 @@ class State:
         self.n = int(plan.get('n', 0))
         self.fault = plan.get('fault', 'none')
         self.arm_text = plan.get('arm_text') or []
+        self.opcode = plan.get('granularity') == 'opcode'      # count bytecode instructions instead of lines
         self.repo = os.path.join(plan.get('repo', '/repo'), 'pyworkers')
         self.targets = tuple(plan.get('target_files') or [])
         self.out_dir = plan.get('out_dir')
@@ -149,7 +150,9 @@ def make_tracer(st):
     def local(frame, event, arg):
         if st.done:
             return None
-        if event == 'line':
+        if event == 'line' and st.opcode and st.armed:
+            return local
+        if event == 'line' or (event == 'opcode' and st.opcode and st.armed):
             if threading.get_ident() != st.thread:
                 return local
             if not st.armed:
@@ -186,10 +189,16 @@ def make_tracer(st):
                     st.anchor_frame = frame
                     if not st.arm_text:
                         st.armed = True
+                    if st.opcode:
+                        frame.f_trace_opcodes = True
+                        sys.settrace(glob)      # CPython 3.12: opcode events only start after the tracer is set again
                     return local
             return None
         if threading.get_ident() != st.thread:
             return None
+        if st.opcode:
+            frame.f_trace_opcodes = True
+            sys.settrace(glob)
         return local
     return glob
 
